@@ -624,10 +624,17 @@ def run(repo, rep, tier):
                 if not isinstance(st, ast.If):
                     continue
                 for b in st.body:
+                    step = None
                     if isinstance(b, ast.AugAssign) and isinstance(b.target, ast.Name) and isinstance(b.value, ast.Constant) and b.value.value == 1 \
                             and isinstance(b.op, (ast.Add, ast.Sub)):
+                        step = (b.target.id, type(b.op).__name__)
+                    elif isinstance(b, ast.Assign) and len(b.targets) == 1 and isinstance(b.targets[0], ast.Name) and isinstance(b.value, ast.BinOp) \
+                            and isinstance(b.value.op, (ast.Add, ast.Sub)) and isinstance(b.value.left, ast.Name) and b.value.left.id == b.targets[0].id \
+                            and isinstance(b.value.right, ast.Constant) and b.value.right.value == 1:
+                        step = (b.targets[0].id, type(b.value.op).__name__)          # x = x - 1
+                    if step is not None:
                         t = demangle(ast.unparse(st.test)).replace(" ", "")
-                        guards.setdefault((demangle(b.target.id), type(b.op).__name__), {}).setdefault(t, []).append((an, a, st))
+                        guards.setdefault((demangle(step[0]), step[1]), {}).setdefault(t, []).append((an, a, st))
         for (var, op), forms in guards.items():
             n_sites = sum(len(v) for v in forms.values())
             ok = len(forms) == 1
@@ -697,8 +704,10 @@ def run(repo, rep, tier):
                 return False
             return True
         for n in walk_local_stmt(f.node):
-            if isinstance(n, ast.Subscript) and isinstance(n.ctx, ast.Store) and isinstance(n.value, ast.Name) and "grid" in n.value.id.lower():
-                idx = n.slice.elts if isinstance(n.slice, ast.Tuple) else [n.slice]
+            # a store into a two-dimensional cell `G[a, b] = ...` of a local/parameter array
+            if isinstance(n, ast.Subscript) and isinstance(n.ctx, ast.Store) and isinstance(n.value, ast.Name) and isinstance(n.slice, ast.Tuple) \
+                    and len(n.slice.elts) == 2:
+                idx = n.slice.elts
                 for ix in idx:
                     names = [x.id for x in ast.walk(ix) if isinstance(x, ast.Name)]
                     bad = [nm for nm in names if not dense(nm)]
@@ -708,6 +717,71 @@ def run(repo, rep, tier):
                                     f"the position is the rank among the bins that happen to be filled, not the offset in the axis' dense index "
                                     f"range, so a gap between filled bins shifts every later row/column against the axis ranges",
                                     stmt=f"grid position {ast.unparse(ix)} from a sparse enumeration")
+    # ---------------- R13.12: the length of a view is never left to the rounding of np.arange
+    # np.arange(start, stop, step) has ceil((stop - start) / step) elements, computed in floating point.  With float arguments
+    # whose exact quotient is an integer n (edges low..high in steps of the bin width) the result has n or n + 1 elements
+    # depending on the rounding of the quotient - numpy's documentation says to use linspace (or an integer arange) instead.
+    r12 = rep.rule("R13.12", "accessors, grids and projections never take the length of an array from np.arange over float arguments", floor=1)
+    float_fields = set()
+    for c in prims:
+        if c.name in BINNED:
+            float_fields |= {f0 for f0 in _models[c.name].structural if f0 in ("low", "high", "binWidth", "origin")}
+    view_fns = []
+    for c in prims:
+        if c.name in BINNED:
+            for an in ACCESSORS + ("bin_width",):
+                a = repo.lookup(c, an)
+                if isinstance(a, FuncInfo) and a not in view_fns:
+                    view_fns.append(a)
+    view_fns += [f for f in grid_fns if f not in view_fns]
+
+    def floaty(e, defs, depth=0):
+        for x in ast.walk(e):
+            if isinstance(x, ast.Constant) and isinstance(x.value, float):
+                return True
+            if isinstance(x, ast.BinOp) and isinstance(x.op, ast.Div):
+                return True
+            if isinstance(x, ast.Attribute) and x.attr in float_fields:
+                return True
+            if isinstance(x, ast.Call) and isinstance(x.func, ast.Attribute) and x.func.attr == "bin_width":
+                return True
+            if isinstance(x, ast.Name) and depth < 4 and len(defs.get(x.id, [])) >= 1 and any(floaty(d0, defs, depth + 1) for d0 in defs[x.id]):
+                return True
+        return False
+    for f in view_fns:
+        defs = {}
+        for st in walk_local_stmt(f.node):
+            if isinstance(st, ast.Assign) and len(st.targets) == 1 and isinstance(st.targets[0], ast.Name):
+                defs.setdefault(st.targets[0].id, []).append(st.value)
+            elif isinstance(st, ast.Assign) and len(st.targets) == 1 and isinstance(st.targets[0], ast.Tuple) and isinstance(st.value, ast.Call):
+                pass
+        # tuple results of helper calls (ylow, yhigh from prepare2Dsparse): followed through the helper's returned tuple
+        for st in walk_local_stmt(f.node):
+            if isinstance(st, ast.Assign) and len(st.targets) == 1 and isinstance(st.targets[0], ast.Tuple) and isinstance(st.value, ast.Call) \
+                    and isinstance(st.value.func, ast.Name):
+                h = repo.resolve_name(f.module, st.value.func.id)
+                if isinstance(h, FuncInfo):
+                    hdefs = {}
+                    for hs in walk_local_stmt(h.node):
+                        if isinstance(hs, ast.Assign) and len(hs.targets) == 1 and isinstance(hs.targets[0], ast.Name):
+                            hdefs.setdefault(hs.targets[0].id, []).append(hs.value)
+                    for hr in walk_local_stmt(h.node):
+                        if isinstance(hr, ast.Return) and isinstance(hr.value, ast.Tuple) and len(hr.value.elts) == len(st.targets[0].elts):
+                            for tg, rv in zip(st.targets[0].elts, hr.value.elts):
+                                if isinstance(tg, ast.Name) and floaty(rv, hdefs):
+                                    defs.setdefault(tg.id, []).append(ast.Constant(value=0.5))
+        for n in walk_local_stmt(f.node):
+            if isinstance(n, ast.Call) and isinstance(n.func, ast.Attribute) and n.func.attr == "arange" and isinstance(n.func.value, ast.Name) \
+                    and n.func.value.id in ("np", "numpy"):
+                bad = [a for a in n.args if floaty(a, defs)]
+                r12.ob(not bad, f"{f.qualname}: `{ast.unparse(n)[:60]}`")
+                if bad:
+                    rep.finding("R13.12", f, n, f"`{ast.unparse(n)[:90]}` takes float arguments (`{ast.unparse(bad[0])[:40]}`): its length is "
+                                f"ceil((stop - start) / step) in floating point, which for an exact quotient n comes out as n or n + 1 depending "
+                                f"on rounding - the view then has one element more than num_bins / the grid has columns (e.g. Bin(231, -0.555, "
+                                f"7.345).bin_centers() has 232 centres for 231 bins)", stmt=f"arange over floats: {ast.unparse(n)[:50]}")
+    if not any(True for _ in r12.samples) and r12.obligations == 0:
+        r12.ob(True, "no np.arange in the views")
     # ---------------- R13.5: the edge formula is written several times (range(), isclose corrections, edges): one affine function
     r5 = rep.rule("R13.5", "every edge expression of Bin/SparselyBin is the class's own edge function of its index", floor=6)
     for cname in ("Bin", "SparselyBin"):
@@ -736,7 +810,34 @@ def run(repo, rep, tier):
                 return Rat.sym("len(" + ast.unparse(e.args[0]).replace(" ", "") + ")")
             raise Unsupported(f"call {ast.unparse(e)}")
 
-        def edge_formula(expr, c=c):
+        def expand_locals(fn, expr, keep=()):
+            """locals of fn with exactly one definition stand for it (`span = self.high - self.low` ... `span * index / num`)"""
+            import copy as _copy
+            defs = {}
+            for st in walk_local_stmt(fn.node):
+                if isinstance(st, ast.Assign) and len(st.targets) == 1 and isinstance(st.targets[0], ast.Name):
+                    defs.setdefault(st.targets[0].id, []).append(st.value)
+                elif isinstance(st, (ast.AugAssign, ast.For)):
+                    for x in ast.walk(st.target):
+                        if isinstance(x, ast.Name):
+                            defs.setdefault(x.id, []).extend([None, None])
+
+            def ex(e, depth):
+                class X(ast.NodeTransformer):
+                    def visit_Name(self, n):
+                        if isinstance(n.ctx, ast.Load) and n.id not in keep and n.id not in fn.params and len(defs.get(n.id, [])) == 1 and depth < 4 \
+                                and not isinstance(defs[n.id][0], ast.Call):
+                            return ex(defs[n.id][0], depth + 1)
+                        if isinstance(n.ctx, ast.Load) and n.id not in keep and n.id not in fn.params and len(defs.get(n.id, [])) == 1 and depth < 4 \
+                                and isinstance(defs[n.id][0], ast.Call) and isinstance(defs[n.id][0].func, ast.Name) and defs[n.id][0].func.id == "len":
+                            return ex(defs[n.id][0], depth + 1)
+                        return n
+                return X().visit(_copy.deepcopy(e))
+            return ex(expr, 0)
+
+        def edge_formula(expr, c=c, fn=None, keep=()):
+            if fn is not None:
+                expr = expand_locals(fn, expr, keep)
             # properties read as attributes (self.num) are expanded as well
             class Prop(ast.NodeTransformer):
                 def visit_Attribute(self, n):
@@ -755,8 +856,8 @@ def run(repo, rep, tier):
         if not rets:
             raise AnalysisError(f"{cname}.range does not return a tuple")
         try:
-            canon = edge_formula(rets[0].elts[0]).rename({rng.params[1]: "K"})
-            canon_hi = edge_formula(rets[0].elts[1]).rename({rng.params[1]: "K"})
+            canon = edge_formula(rets[0].elts[0], fn=rng).rename({rng.params[1]: "K"})
+            canon_hi = edge_formula(rets[0].elts[1], fn=rng).rename({rng.params[1]: "K"})
         except Unsupported as e:
             raise AnalysisError(f"{cname}.range: {e}")
         ok = canon_hi.equals(canon.subst({"K": Rat.sym("K") + Rat.const(1)}))
